@@ -179,15 +179,20 @@ func childIter(dir string, cs childSpec, b *vlib.Batch) {
 					}
 					e2 = it.Err()
 				} else {
+					// the real backend gives no signal when Finish returned: every Finish
+					// passes the hook point, so wait for that, then for the error
 					deadline := time.Now().Add(60 * time.Second)
+					for plan.hits.Load() == hits0 && time.Now().Before(deadline) {
+						time.Sleep(50 * time.Microsecond)
+					}
 					for e2 = it.Err(); e2 == nil && time.Now().Before(deadline); e2 = it.Err() {
 						time.Sleep(100 * time.Microsecond)
 					}
 				}
 				b.Eval(1)
 				b.Count("iter/rounds/"+source+"/"+mode, 1)
-				if mode == "pause" && plan.hits.Load() == hits0 {
-					b.Inconclusive("iter: hook point db.iter.finish was not reached (%s)", source)
+				if plan.hits.Load() == hits0 {
+					b.Inconclusive("iter: hook point db.iter.finish was not reached (%s/%s)", source, mode)
 					return
 				}
 				if e2 == nil {
